@@ -141,6 +141,9 @@ func sizingBloom(c *Ctx, n uint, p float64, probes int) {
 }
 
 func sizingCMS(c *Ctx, eps, delta float64, skewed bool) {
+	if eps >= 0.05 {
+		sizingCMSRedis(c, eps, delta, skewed)
+	}
 	s, err := gostatix.NewCountMinSketchFromEstimates(eps, delta)
 	if err != nil {
 		return
@@ -202,4 +205,37 @@ func sizingCuckoo(c *Ctx, size, b uint64, errRate float64, probes int) {
 			map[string]interface{}{"size": size, "bucketSize": b, "errorRate": errRate, "seed": c.seed})
 	}
 	c.nontrivial(fmt.Sprintf("cuckoo %d %d %g", size, b, errRate))
+}
+
+// the same measurement through the Redis-backed sketch (small configurations only)
+func sizingCMSRedis(c *Ctx, eps, delta float64, skewed bool) {
+	s, err := gostatix.NewCountMinSketchRedisFromEstimates(eps, delta)
+	if err != nil || s == nil {
+		return
+	}
+	c.rep.Cases++
+	keys := 400
+	truth := make([]uint64, keys)
+	var total uint64
+	for i := 0; i < keys; i++ {
+		cnt := uint64(1 + c.rng.Intn(5))
+		if skewed {
+			cnt = uint64(1 + 1000/(i+1))
+		}
+		truth[i] = cnt
+		total += cnt
+		s.Update([]byte(fmt.Sprintf("rkey-%d-%d", c.seed, i)), cnt)
+	}
+	bad := 0
+	for i := 0; i < keys; i++ {
+		est, _ := s.Count([]byte(fmt.Sprintf("rkey-%d-%d", c.seed, i)))
+		if est < truth[i] || float64(est-truth[i]) > eps*float64(total) {
+			bad++
+		}
+	}
+	c.op("stat.cms.redis")
+	if overBudget(bad, keys, delta) {
+		c.fail([]string{"C15", "C03"}, "cms-overestimate-above-budget", fmt.Sprintf("CountMinSketchRedis(eps=%g,delta=%g,skewed=%v): %d of %d keys off by more than eps*N", eps, delta, skewed, bad, keys),
+			map[string]interface{}{"eps": eps, "delta": delta, "skewed": skewed, "seed": c.seed, "backend": "redis"})
+	}
 }
